@@ -65,7 +65,8 @@ QueryOK(a, glob, res) ==
   /\ a \in DOMAIN sl
   /\ \A s \in DOMAIN res : s \in DOMAIN sl[a] /\ (glob \/ sl[a][s].local)
 
-Idle == [st |-> "idle", f |-> "", x |-> NoX, fk |-> "", supp |-> FALSE, nf |-> FALSE, nm |-> FALSE]
+NoPl == [k |-> "-", ck |-> FALSE, mt |-> FALSE]
+Idle == [st |-> "idle", f |-> "", x |-> NoX, fk |-> "", supp |-> FALSE, nf |-> FALSE, nm |-> FALSE, pl |-> NoPl]
 
 SetSt(w, s) == wk' = [wk EXCEPT ![w].st = s]
 
@@ -288,10 +289,21 @@ SendErr(c, x) ==
      \/ x.sev = "internal" /\ wk[c].st \in {"file", "pre", "ended"} /\ wk' = [wk EXCEPT ![c].x = x]
   /\ UNCHANGED <<sl, ldup, edup, shown, emitted, xflag, result, pipe, chst, phase, unm, nfm, exit>>
 
+\* PipeWriter::writeSuppr: the child's state of one suppression entry goes into a REPORT_SUPPR(_INLINE) frame.
+\* Inline entries are always sent, other entries only when they were consulted.
+SendSuppr(c, k, inl, ck, mt) ==
+  /\ wk[c].st = "reported"
+  /\ k \in DOMAIN sl[c]
+  /\ sl[c][k].inl = inl /\ sl[c][k].checked = ck /\ sl[c][k].matched = mt
+  /\ inl \/ ck
+  /\ wk' = [wk EXCEPT ![c].pl = [k |-> k, ck |-> ck, mt |-> mt]]
+  /\ UNCHANGED <<sl, ldup, edup, shown, emitted, xflag, result, pipe, chst, phase, unm, nfm, exit>>
+
 \* a complete frame was written
 Sent(c, t, n) ==
   /\ chst[c].alive
-  /\ pipe' = [pipe EXCEPT ![c] = Append(@, [t |-> t, x |-> IF t = "2" THEN wk[c].x ELSE NoX, n |-> n])]
+  /\ pipe' = [pipe EXCEPT ![c] = Append(@, [t |-> t, x |-> IF t = "2" THEN wk[c].x ELSE NoX, n |-> n,
+                                            pl |-> IF t \in {"3", "4"} THEN wk[c].pl ELSE NoPl])]
   /\ IF t = "2" /\ wk[c].st = "sending" THEN SetSt(c, "file") ELSE UNCHANGED wk
   /\ UNCHANGED <<sl, ldup, edup, shown, emitted, xflag, result, chst, phase, unm, nfm, exit>>
 
@@ -320,11 +332,10 @@ Recv(c, t, n) ==
                    /\ sl[c][s].matched => sl["main"][s].matched
           /\ UNCHANGED wk
      ELSE /\ UNCHANGED <<result, chst>>
-          /\ IF t = "2"
-             THEN wk' = IF PName(c) \in DOMAIN wk
-                        THEN [wk EXCEPT ![PName(c)] = [Idle EXCEPT !.st = "recv", !.x = Head(pipe[c]).x]]
-                        ELSE wk @@ (PName(c) :> [Idle EXCEPT !.st = "recv", !.x = Head(pipe[c]).x])
-             ELSE UNCHANGED wk
+          /\ LET ctx == IF t = "2" THEN [Idle EXCEPT !.st = "recv", !.x = Head(pipe[c]).x]
+                        ELSE IF t \in {"3", "4"} THEN [Idle EXCEPT !.st = "rsup", !.pl = Head(pipe[c]).pl]
+                        ELSE Idle
+             IN wk' = IF PName(c) \in DOMAIN wk THEN [wk EXCEPT ![PName(c)] = ctx] ELSE wk @@ (PName(c) :> ctx)
   /\ UNCHANGED <<sl, ldup, edup, shown, emitted, xflag, phase, unm, nfm, exit>>
 
 \* deserialize gave back the finding that was serialized
@@ -334,10 +345,29 @@ RecvErr(c, x) ==
   /\ SetSt(PName(c), IF x.sev = "internal" THEN "idle" ELSE "fwd")
   /\ UNCHANGED <<sl, ldup, edup, shown, emitted, xflag, result, pipe, chst, phase, unm, nfm, exit>>
 
-\* suppression state sent back by the child arrives with the flags the child had
-RecvSupprOK(c, key, checked, matched) ==
-  /\ key \in DOMAIN sl[c]
-  /\ sl[c][key].checked = checked /\ sl[c][key].matched = matched
+\* the parent merges a received suppression entry into its own list: addSuppression, and
+\* updateSuppressionState when the entry is already there. The values are the ones the child sent.
+ParentSupprAdd(c, key, rec, res) ==
+  /\ PName(c) \in DOMAIN wk /\ wk[PName(c)].st = "rsup"
+  /\ wk[PName(c)].pl = [k |-> key, ck |-> rec.checked, mt |-> rec.matched]
+  /\ IF res = "added"
+     THEN /\ key \notin DOMAIN sl["main"]
+          /\ sl' = [sl EXCEPT !["main"] = @ @@ (key :> rec)]
+          /\ SetSt(PName(c), "idle")
+     ELSE /\ key \in DOMAIN sl["main"]
+          /\ UNCHANGED sl
+          /\ SetSt(PName(c), "rsup2")
+  /\ UNCHANGED <<ldup, edup, shown, emitted, xflag, result, pipe, chst, phase, unm, nfm, exit>>
+
+ParentSupprUpdate(c, key, checked, matched, found) ==
+  /\ PName(c) \in DOMAIN wk /\ wk[PName(c)].st = "rsup2"
+  /\ wk[PName(c)].pl = [k |-> key, ck |-> checked, mt |-> matched]
+  /\ found = (key \in DOMAIN sl["main"])
+  /\ sl' = IF found
+           THEN [sl EXCEPT !["main"][key].checked = @ \/ checked, !["main"][key].matched = @ \/ matched]
+           ELSE sl
+  /\ SetSt(PName(c), "idle")
+  /\ UNCHANGED <<ldup, edup, shown, emitted, xflag, result, pipe, chst, phase, unm, nfm, exit>>
 
 \* read() returned 0 before CHILD_END: the worker died
 PipeEof(c) ==
